@@ -146,9 +146,18 @@ def run(sc):
         seq = list(snd["seq"])
         cnt = [0]
 
+        keep_l, keep_d = {}, []      # "inplace": the application keeps ONE dict and ONE list and updates them in place
+
         def src_cb():
             x = seq[cnt[0] % len(seq)]
             cnt[0] += 1
+            if snd.get("inplace"):
+                keep_l.clear()
+                keep_l.update(x["lamps"])
+                keep_d[:] = [dict(d) for d in x["dtcs"]]
+                sim.log({"ev": "timer", "node": ns_.name, "period": snd["cycle"]})
+                sim.log({"ev": "dm1src", "node": ns_.name, "lamps": dict(x["lamps"]), "dtcs": [dict(d) for d in x["dtcs"]]})
+                return keep_l, keep_d
             sim.log({"ev": "timer", "node": ns_.name, "period": snd["cycle"]})
             sim.log({"ev": "dm1src", "node": ns_.name, "lamps": dict(x["lamps"]), "dtcs": [dict(d) for d in x["dtcs"]]})
             return dict(x["lamps"]), [dict(d) for d in x["dtcs"]]
